@@ -14,7 +14,7 @@ for a in sys.argv[2:]:
     elif a.startswith("--tier="): tier = a[7:]
     elif a.startswith("--timeout="): tmo = a[10:]
 u = kanix.parse_template(f"/verif/contracts/{unit}.kani.rs")
-hs = [h for h in u["harnesses"] if (only is None and (tier == "thorough" or h["tier"] == "quick")) or (only and h["name"] in only)]
+hs = [h for h in u["harnesses"] if (only is None and (h["tier"] == "quick" or (tier in ("thorough", "experimental") and h["tier"] == "thorough") or tier == "experimental")) or (only and h["name"] in only)]
 if tmo:
     for h in hs: h["timeout"] = tmo
 with kanix.Scratch(repo, "ktest-" + unit) as sc:
